@@ -18,21 +18,21 @@ import (
 const contractFileName = "zz_verif_contracts.go"
 
 type World struct {
-	repo    string
-	fset    *token.FileSet
-	prog    *ssa.Program
-	pkgs    []*packages.Package
-	spkgs   []*ssa.Package
-	specs   map[string]*FuncSpec // key: pkgpath::relname   or lib full name
-	ghosts  map[string]*GhostField
-	srcText map[string][]string
-	overlay map[string][]byte
-	rootPkg map[string]bool
-	modPath string
+	repo     string
+	fset     *token.FileSet
+	prog     *ssa.Program
+	pkgs     []*packages.Package
+	spkgs    []*ssa.Package
+	specs    map[string]*FuncSpec // key: pkgpath::relname   or lib full name
+	ghosts   map[string]*GhostField
+	srcText  map[string][]string
+	overlay  map[string][]byte
+	rootPkg  map[string]bool
+	modPath  string
 	monitors map[string]*MonitorSpec // "pkg::Type.field"
 	condMon  map[string]*MonitorSpec // "pkg::Type.condfield"
-	constErr map[string]bool // "G:pkg.name" of error variables assigned only by their package initialiser
-	specErr []string
+	constErr map[string]bool         // "G:pkg.name" of error variables assigned only by their package initialiser
+	specErr  []string
 }
 
 func loadWorld(repo string, patterns []string, libDir string, overlay map[string][]byte) (*World, error) {
